@@ -14,7 +14,7 @@ LB == 3
 \* family 2: m = a * 8 + b, j = c, N = d * 25 + f..., see below
 Init == \/ (fam = 1 /\ a \in Pow2(HB - 1)..(Pow2(HB) - 1) /\ b \in 0..(Pow2(LB) - 1)
                      /\ c \in Pow2(HB - 1)..(Pow2(HB) - 1) /\ d \in 0..(Pow2(LB) - 1) /\ f \in -1..1)
-        \/ (fam = 2 /\ a \in 0..64 /\ b \in 0..4 /\ c \in 0..250 /\ d \in 0..3 /\ f = 0)
+        \/ (fam = 2 /\ a \in 0..40 /\ b \in 0..4 /\ c \in 0..125 /\ d \in 0..3 /\ f = 0)
 Next == UNCHANGED vars
 Spec == Init /\ [][Next]_vars
 
